@@ -23,7 +23,7 @@ def ref_safe(vp):
 
 def run_history(rng, length):
     for _ in range(200):
-        pr = rwcommon.gen_ok_project(rng, max_files=3, max_pats=3)
+        pr = rwcommon.gen_ok_project(rng, max_files=3, max_pats=3, license_file=rng.random() < 0.5)
         if ref_safe(pr["vp"]):
             break
     pr["variants"] = True       # implicit self pattern, non-normalised file keys, a glob key that also matches the config file
@@ -39,16 +39,32 @@ def run_history(rng, length):
         p.git("commit", "-q", "-m", "init")
         model_ops = []
         cur_text = pr["old"]
+        old_heads = [p.git("rev-parse", "HEAD").strip()]
         for i in range(length):
-            kind = rng.choice(["update", "update", "update", "update", "fail", "no_tag", "no_commit", "unrelated", "branch"])
+            kind = rng.choice(["update", "update", "update", "update", "fail", "no_tag", "no_commit", "unrelated", "branch", "behind", "behind"])
             head0 = p.git("rev-parse", "HEAD").strip()
             ncommits0 = int(p.git("rev-list", "--count", "HEAD").strip())
             tags0 = sorted(p.git("tag", "--list").split())
+            if kind != "behind" and cur_text in tags0 and len(old_heads) >= 2 and rng.random() < 0.3:
+                kind = "behind"
             step = {"i": i, "kind": kind}
             if kind == "unrelated":
                 p.write_text("notes/other.txt", "note %d\n" % i)
                 p.git("add", "-A")
                 p.git("commit", "-q", "-m", "unrelated %d" % i)
+                case["steps"].append(step)
+                continue
+            if kind == "behind":
+                # the checkout falls BEHIND the newest tag (a hotfix branch from an older commit, a revert): files and config on disk show
+                # an older version, the next update starts from the newest tag and must bring every occurrence to the new version.
+                # Only when the current version is tagged (then it is the start version whatever the older config says).
+                if cur_text not in tags0 or len(old_heads) < 2 or p.git("status", "--porcelain").strip():
+                    step["kind"] = "behind-skipped"
+                    case["steps"].append(step)
+                    continue
+                target = rng.choice(old_heads[:-1][:2] + old_heads[:-1])       # biased towards the oldest commits
+                p.git("checkout", "-q", "-b", "behind%d" % i, target)
+                step["target"] = target
                 case["steps"].append(step)
                 continue
             if kind == "branch":
@@ -147,6 +163,7 @@ def run_history(rng, length):
                 p.git("add", "-A")
                 p.git("commit", "-q", "-m", "manual commit of bump %d" % i)
                 continue
+            old_heads.append(head1)
             if ncommits1 != ncommits0 + 1:
                 return pr, case, "step %d: a committing update added %d commits" % (i, ncommits1 - ncommits0)
             committed = sorted(p.git("-c", "core.quotepath=false", "show", "--name-only", "--format=", "HEAD").splitlines())
